@@ -46,7 +46,7 @@ func (c05) RealStub() map[string]string {
 }
 func (c05) Runs(t Tier) int {
 	if t == Thorough {
-		return 40000
+		return 100000
 	}
 	return 2500
 }
@@ -420,6 +420,20 @@ func (c05) runFile(ts *tape.Set, tier Tier) *Result {
 	return res
 }
 
+// blocksOnPathDirs returns the directories (root included) a path selector
+// with path matching visits before the first segment that names no entry.
+func blocksOnPathDirs(g dagmodel.Getter, root cid.Cid, segs []string) []cid.Cid {
+	var out []cid.Cid
+	for i := 0; i <= len(segs); i++ {
+		_, tgt, err := dagmodel.PathBlocks(g, root, segs[:i])
+		if err != nil || !tgt.Defined() {
+			break
+		}
+		out = append(out, tgt)
+	}
+	return out
+}
+
 func spanOf(m *dagmodel.File, c cid.Cid) string {
 	var ss []string
 	for _, s := range m.Spans {
@@ -595,7 +609,14 @@ func (c05) runTree(ts *tape.Set, tier Tier) *Result {
 	for i := 0; i < nOps && res.Violation == nil; i++ {
 		pi := ops.Intn(len(paths))
 		style := ops.Intn(4)
-		missing := ops.Intn(4) == 3
+		mraw := ops.Intn(8)
+		missing := mraw%4 == 3
+		// (the matchPath=true variant of UnixFSPathSelectorBuilder is not used:
+		// on the unchanged tree it matches only the root, because go-ipld-prime
+		// does not apply an InterpretAs clause nested directly in a union - that
+		// is C03's subject, which is not claimed; see DESIGN.md 9.6)
+		matchPath := false
+		_ = mraw
 		segs := paths[pi]
 		target := nodes[pi]
 		if missing {
@@ -665,6 +686,9 @@ func (c05) runTree(ts *tape.Set, tier Tier) *Result {
 				}
 				monitor(st, allowed, starve, &outside)
 				sel := unixfsnode.UnixFSPathSelector(pathStr)
+				if matchPath {
+					sel = unixfsnode.UnixFSPathSelectorBuilder(pathStr, unixfsnode.MatchUnixFSSelector, true)
+				}
 				walkErr = walkMatching(w, rn, sel, func(_ traversal.Progress, n datamodel.Node) error {
 					matched++
 					matchedKind = n.Kind()
@@ -694,7 +718,12 @@ func (c05) runTree(ts *tape.Set, tier Tier) *Result {
 				wantKind = datamodel.Kind_Bytes
 			}
 			if missing {
-				if walkErr != nil || matched != 0 {
+				wantM := 0
+				if matchPath {
+					// every node along the path up to the parent of the missing entry
+					wantM = len(blocksOnPathDirs(st, tree.Cid, segs))
+				}
+				if walkErr != nil || matched != wantM {
 					if starve {
 						fail("c05/path/needs-unrelated-block", "starved store: a path naming no entry gave err=%v matched=%d", walkErr, matched)
 					} else {
@@ -708,7 +737,12 @@ func (c05) runTree(ts *tape.Set, tier Tier) *Result {
 				}
 				continue
 			}
-			if walkErr != nil || matched != 1 || matchedKind != wantKind {
+			wantMatches := 1
+			if matchPath {
+				wantMatches = 1 + len(segs)
+				res.probe("path-with-matchpath")
+			}
+			if walkErr != nil || matched != wantMatches || matchedKind != wantKind {
 				if starve {
 					fail("c05/path/needs-unrelated-block", "starved store (only the %d blocks on the path available): err=%v matched=%d kind=%v", len(allowed), walkErr, matched, matchedKind)
 				} else {
